@@ -57,7 +57,7 @@ func cfgFor(prop string) genCfg {
 	c := genCfg{prop: prop, maxSteps: 40}
 	switch prop {
 	case "C07":
-		c.windows = []string{"past", "current", "current", "future", "lapsing", "lapsing", "starting", "zero", "forever", "above_maxint", "va_above"}
+		c.windows = []string{"past", "current", "current", "future", "lapsing", "lapsing", "starting", "zero", "forever", "above_maxint", "va_above", "future_forever", "starting_forever"}
 		c.keyids = []string{"touchless", "touch", "free_text", "hw_firefighter"}
 		//          list sgnrs via sign add addh rm rmall lock unl ext fwd adv uprm upadd uplock
 		c.weights = []int{16, 8, 4, 10, 10, 10, 5, 1, 1, 1, 0, 0, 14, 6, 3, 2, 0}
@@ -89,9 +89,17 @@ func genS(prop string) func(r *sim.Rng, tier string) any {
 			p.NoUp = true
 		}
 		nk := r.Range(2, 5)
+		opaqueRole := ""
 		kinds := []string{"ed25519", "ed25519", "ecdsa256", "rsa2048"}
 		for i := 0; i < nk; i++ {
 			p.Keys = append(p.Keys, SKey{Role: fmt.Sprintf("K%d", i), Kind: pick(r, kinds)})
+		}
+		if r.Bool(0.12) {
+			// an identity of the underlying agent that the ssh library cannot parse (an algorithm it does not know,
+			// plain or certificate-style): it is listed raw and passed through like any other identity
+			p.Keys = append(p.Keys, SKey{Role: fmt.Sprintf("K%d", nk), Kind: pick(r, []string{"opaque", "opaque-cert"})})
+			opaqueRole = p.Keys[nk].Role
+			nk++
 		}
 		if prop != "C09" && r.Bool(0.25) {
 			// a security-key identity: listed and certified, but this agent cannot sign with it
@@ -101,8 +109,11 @@ func genS(prop string) func(r *sim.Rng, tier string) any {
 		nc := r.Range(2, 8)
 		for i := 0; i < nc; i++ {
 			x := SCert{Role: fmt.Sprintf("C%d", i), Key: p.Keys[r.Intn(nk)].Role, Window: pick(r, c.windows), KeyID: pick(r, c.keyids),
-				Comment: pick(r, []string{"", "work", "my cert"})}
-			if x.Window == "lapsing" || x.Window == "starting" {
+				Comment: pick(r, []string{"", "work", "my cert"}), Host: r.Bool(0.12)}
+			for x.Key == opaqueRole {
+				x.Key = p.Keys[r.Intn(nk)].Role // nothing certifies an opaque identity
+			}
+			if x.Window == "lapsing" || x.Window == "starting" || x.Window == "starting_forever" {
 				x.T = int64(2*r.Range(5, 2000) + 1) // odd offsets; plain clock jumps are even
 			}
 			p.Certs = append(p.Certs, x)
@@ -183,7 +194,7 @@ func genS(prop string) func(r *sim.Rng, tier string) any {
 					if x.T > 0 {
 						st.Op = "advance_to"
 						st.N = x.T + int64(pick(r, []int{-1, 1, 1, 3}))
-						if x.Window == "starting" && r.Bool(0.4) {
+						if (x.Window == "starting" || x.Window == "starting_forever") && r.Bool(0.4) {
 							st.N = x.T // exactly ValidAfter: the certificate is valid from this second on
 						}
 						break
@@ -194,7 +205,13 @@ func genS(prop string) func(r *sim.Rng, tier string) any {
 				st.N = int64(r.Intn(2))
 			}
 			p.Steps = append(p.Steps, st)
-			if prop == "C08" && op == "lock" && r.Bool(0.2) {
+			if prop == "C08" && op == "lock" && r.Bool(0.15) {
+				// a run of wrong passphrases, then the right one: how often it was wrong before does not matter
+				for k := 0; k < r.Range(3, 9); k++ {
+					p.Steps = append(p.Steps, SStep{Op: "unlock", Arg: pick(r, []string{"wrong", "pw2", "PW1", st.Arg + "x"})})
+				}
+				p.Steps = append(p.Steps, SStep{Op: "unlock", Arg: st.Arg}, SStep{Op: "list"})
+			} else if prop == "C08" && op == "lock" && r.Bool(0.2) {
 				// somebody unlocks (or re-locks with another passphrase) the underlying agent on its own socket while
 				// the shim is locked; what the shim is told afterwards must still be judged by the passphrase
 				p.Steps = append(p.Steps, SStep{Op: "uplock", N: int64(r.Intn(2))},
